@@ -834,3 +834,19 @@ _C19_QUICK |= {"hull.stale_fast.facet_visible"}
 for _u in UNITS:
     if _u["id"].startswith("hull.stale_fast.") and _u["id"] not in _C19_QUICK:
         _u.setdefault("tier_for", {})["C19"] = "thorough"
+
+# ======================================================================================
+# C06 / C03 : fan path of Triangulation::remove_vertex - finalisation sequence (K-slice)
+# ======================================================================================
+_SL_FAN = dict(file=TRI, fn_anchor=r"pub\(crate\) fn remove_vertex\(\s*&mut self,\s*vertex: &Vertex<K::Scalar, U, D>,\s*\) -> Result<usize, TdsMutationError>",
+               name="verif_slice_fan_tail", params="&mut self, mut cells_removed: usize, new_cells: CellKeyBuffer, vertex: &Vertex<K::Scalar, U, D>",
+               ret="Result<usize, TdsMutationError>", stmts=[dict(rest_of_block_after=r"let mut cells_removed = self\.tds\.remove_cells_by_keys\(&cells_to_remove\)")], result="")
+K("tri.fan_tail", ["C06", "C03"], TRI, "tri_fan.rs", "fan_tail_contract", "K-slice",
+  [dict(file=TRI, name="Triangulation::remove_vertex (K-slice: retriangulation closure after the fan replaced the star)", anchor=_SL_FAN["fn_anchor"])],
+  slices=[_SL_FAN], tier="thorough", timeout=7200, mem_gb=34,
+  assumed=["K-slice: the tail of the retriangulation closure after `let mut cells_removed = ..;`; the fan construction, neighbour wiring and cell removal before it are dropped; "
+           "all seven callees stubbed (any verdict, no state change); the over-shared-facet repair branch is not exercised (its map is a hash map)"],
+  obligations=["fan-finalisation-conjunction", "fan-count", "fan-all-consulted"],
+  claim="Triangulation::remove_vertex, fan path: success <=> facet-issue detection, orientation normalisation, sign canonicalisation, GLOBAL geometric-orientation validation, incidence rebuild and vertex removal all succeed; any failure => Err (snapshot restored by the caller of the closure)",
+  mutant=dict(file=TRI, old="            self.validate_geometric_cell_orientation().map_err(|e| {\n                TdsValidationError::InconsistentDataStructure {\n                    message: format!(\n                        \"Geometric orientation validation failed after fan retriangulation: {e}\",\n                    ),\n                }\n            })?;\n",
+              new="", desc="geometric-orientation validation after fan retriangulation dropped"))
